@@ -302,7 +302,21 @@ def cylseg_order(tree):
                 pos[t[-2]] = i
     if set(pos) != {"exit", "J", "M"}:
         raise Untranslatable(f"BHJM_cylinder_segment: exit / J / M branches not found as top-level ifs: {pos}")
-    return pos["exit"] < pos["J"], pos["exit"] < pos["M"]
+    # which rows the J / M branch zeroes: outside only, or outside and on-surface rows
+    zero_surf = {}
+    for key in ("J", "M"):
+        b = fn.body[pos[key]].body
+        if len(b) != 2 or not isinstance(b[1], ast.Return):
+            raise Untranslatable(f"BHJM_cylinder_segment {key} branch: `BHJM[<mask>] = 0; return ..` expected")
+        st = ast.unparse(b[0])
+        if st == "BHJM[~mask_inside] = 0":
+            zero_surf[key] = False
+        elif st in ("BHJM[~(mask_inside & mask_not_on_surf)] = 0", "BHJM[~(mask_not_on_surf & mask_inside)] = 0",
+                    "BHJM[~mask_inside | ~mask_not_on_surf] = 0"):
+            zero_surf[key] = True
+        else:
+            raise Untranslatable(f"BHJM_cylinder_segment {key} branch: unknown zeroing statement `{st}`")
+    return pos["exit"] < pos["J"], pos["exit"] < pos["M"], zero_surf["J"], zero_surf["M"]
 
 
 def ragged_switch(tree, name, test_src):
@@ -344,7 +358,7 @@ def generate(repo):
     lo, hi_off, last_off = trimesh_loop(trees["field_BH_triangularmesh.py"])
     cel_c, cel_ret, cel_vec = size_switch(trees["special_cel.py"], "cel", "n_input")
     it_c, it_ret, it_vec = size_switch(trees["special_cel.py"], "cel_iter", "n_input")
-    exit_before_j, exit_before_m = cylseg_order(trees["field_BH_cylinder_segment.py"])
+    exit_before_j, exit_before_m, zsj, zsm = cylseg_order(trees["field_BH_cylinder_segment.py"])
     ragged_switch(trees["field_BH_polyline.py"], "current_vertices_field", "all((v == nvs[0] for v in nvs))")
     ragged_switch(trees["field_BH_triangularmesh.py"], "BHJM_magnet_trimesh", "mesh.ndim != 1")
 
@@ -372,6 +386,9 @@ def generate(repo):
     out.append("(* BHJM_cylinder_segment: is `if not np.any(mask_not_on_surf): return 0` placed before the J / M branch *)\n")
     out.append(f"Definition cylseg_exit_before_J : bool := {'true' if exit_before_j else 'false'}.\n")
     out.append(f"Definition cylseg_exit_before_M : bool := {'true' if exit_before_m else 'false'}.\n")
+    out.append("(* do the J / M branches also zero the on-surface rows (BHJM[~(mask_inside & mask_not_on_surf)] = 0) *)\n")
+    out.append(f"Definition cylseg_J_zero_on_surface : bool := {'true' if zsj else 'false'}.\n")
+    out.append(f"Definition cylseg_M_zero_on_surface : bool := {'true' if zsm else 'false'}.\n")
     return "".join(out)
 
 
